@@ -1101,7 +1101,9 @@ def check_copy(case):
     ok, val = _call(edits[asp])
     label = asp + ("" if ok else f" (raised {type(val).__name__}: {val})")
     if snapf(A).diff(s_A) == [] and ok and cls != "FG":
-        return {"key": f"{name}.copy:edit-had-no-effect", "what": f"checker: edit `{label}` did not change the edited side"}
+        # the edit happened to be a no-op on this model (e.g. add_cpds with a CPD equal to the one already there): nothing to observe on
+        # the other side, the case says nothing about aliasing
+        return None
     d = snapf(B).diff(s_B)
     if d:
         return {"key": f"{name}.copy:{d[0]}-aliased", "what": f"edit `{label}` on the {sideA} changed {d} of the other object"}
